@@ -4,7 +4,7 @@
    drop point and cancellation point, with any number of callers. *)
 From Coq Require Import List NArith Lia Bool Arith.
 From FFS Require Import WsClient.Model WsClient.Spec WsClient.ProofsHttp WsClient.ProofsWsBase
-  WsClient.ProofsWsPairing WsClient.ProofsWsReconnect WsClient.ProofsWsResub.
+  WsClient.ProofsWsPairing WsClient.ProofsWsReconnect WsClient.ProofsWsResub WsClient.ProofsWsRouting.
 Import ListNotations.
 
 (* 1. HTTP: with a limit configured, the number of requests outstanding at the backend never exceeds
@@ -113,6 +113,74 @@ Theorem C18_ws_resubscribe_once_refuted :
     w_hpc w = HIdle /\ sends_since_clear s (w_log w) = 2 /\ length (w_pend w) = 2.
 Proof. exact ws_resubscribe_once_refuted. Qed.
 Print Assumptions C18_ws_resubscribe_once_refuted.
+
+(* 7. WebSocket, routing of notifications.  In EVERY state a notification frame is dispatched by the
+      abstract ownership table of Spec.v read off activeSubsBySubID: handed to [spec_route (w_act w) x]
+      when x has an owner, dropped without any effect otherwise (also when it carries no usable id). *)
+Theorem C18_ws_notification_dispatch :
+  forall w x t, w_rpc w = RIdle ->
+    wstep w (EFrame (FNotif (Some x) t)) =
+      Some (match spec_route (w_act w) x with Some s => set_rpc w (RNotify s x t) | None => w end) /\
+    (forall t', wstep w (EFrame (FNotif None t')) = Some w).
+Proof. exact ws_notification_dispatch. Qed.
+Print Assumptions C18_ws_notification_dispatch.
+
+(* 7b. ... and that table is an ownership table: an entry x |-> s exists only while x is the server id s
+       was last confirmed with and Unsubscribe s has not begun; the subscription the receive loop is
+       handing a notification to has not completed its Unsubscribe; once Unsubscribe s has returned nil
+       s owns no id, no notification is delivered to s afterwards in the whole history ([no_late]), and
+       nothing is ever sent on / closed twice as a closed notifications channel.  PARTIAL: proved for
+       event sequences in which no reconnect begins while the receive loop is inside a frame
+       (ghost flag w_straddle: between popInflight and addActiveSub / at the hand-over of a
+       notification) nor while a Subscribe() call is between addConfiguredSub and the completion of its
+       own send (w_substraddle).  Without the first hypothesis the statement is false of the faithful
+       model (7c); without the second one see 6b. *)
+Theorem C18_ws_routing_partial :
+  forall evs w,
+    wrun evs winit = Some w -> w_straddle w = false -> w_substraddle w = false ->
+    (forall s x t, w_rpc w = RNotify s x t -> w_upc w s <> UDone true /\ w_upc w s <> UClosing) /\
+    (forall x s, In (x, s) (w_act w) -> s_cur (w_sub w s) = Some x /\ w_upc w s = UNew) /\
+    (forall s, w_upc w s = UDone true -> owns_nothing (w_act w) s) /\
+    no_late (w_log w) /\
+    w_panic w = false.
+Proof. exact ws_routing_partial. Qed.
+Print Assumptions C18_ws_routing_partial.
+
+(* 7c. the witness: the receive loop has taken the confirmation of subscription 0 (server id 7) off the
+       pending table when the connection drops; handleReconnect clears the tables and re-requests 0;
+       the receive loop then records the OLD connection's id 7 as active; the new confirmation (id 8)
+       adds a second entry; Unsubscribe removes only 8; a notification carrying 7 is then sent on the
+       closed notifications channel of the unsubscribed subscription. *)
+Theorem C18_ws_routing_refuted :
+  exists evs w, wrun evs winit = Some w /\ w_substraddle w = false /\ w_upc w 0 = UDone true /\
+                w_panic w = true.
+Proof. exact ws_routing_refuted. Qed.
+Print Assumptions C18_ws_routing_refuted.
+
+(* non-vacuity of 7/7b: subscription 0 is confirmed with server id 5 and receives a notification; the id
+   moves to subscription 1 after a reconnect (the server reuses it); 0 is unsubscribed; a notification
+   for 5 then goes to 1, one for the id 0 had last (6) to nobody; both ghost flags are still false *)
+Example C18_ws_routing_nonvacuous :
+  match wrun [ESubCfg 0; ESubInflight 0; ESubSend 0 true; EFrame (FReply (Some 1%N) false (Some 5%N));
+              ERAddActive; ESubWait 0; EFrame (FNotif (Some 5%N) 70%N); ERNotifySend;
+              ESubCfg 1; ESubInflight 1; ESubSend 1 true;
+              EClear; ERcInflight 0; ERcSend true; ERcInflight 1; ERcSend true;
+              EFrame (FReply (Some 4%N) false (Some 5%N)); ERAddActive; ESubWait 1;
+              EFrame (FReply (Some 3%N) false (Some 6%N)); ERAddActive;
+              EUnsubRemove 0 9; ECallReg 9; ECallSend 9 true;
+              EFrame (FReply (Some 5%N) false None); ERDeliver; ECallRecv 9; ECallRemove 9;
+              EUnsubAfterCall 0; EUnsubClose 0;
+              EFrame (FNotif (Some 6%N) 71%N);
+              EFrame (FNotif (Some 5%N) 72%N); ERNotifySend] winit with
+  | Some w => negb (w_straddle w) && negb (w_substraddle w) && negb (w_panic w) &&
+              match w_upc w 0%nat, w_log w with
+              | UDone true, LNotify 1%nat 5%N (Some 5%N) 72%N :: LUnsubRet 0%nat :: _ => true
+              | _, _ => false
+              end &&
+              match spec_route (w_act w) 5%N, spec_route (w_act w) 6%N with Some 1%nat, None => true | _, _ => false end
+  | None => false
+  end = true.
+Proof. vm_compute. reflexivity. Qed.
 
 (* non-vacuity of 6: a confirmed subscription, a reconnect, the resubscribe *)
 Example C18_ws_resub_nonvacuous :
